@@ -166,6 +166,18 @@ type BoxT struct {
 	B *Box
 }
 
+// BoxSeqT: a byte buffer holding several marshalled JSON lines (built by appending boxes and
+// newlines); each element is present under its own guard (appends inside guarded loop iterations).
+type BoxSeqT struct {
+	id    int
+	Elems []SeqElem
+}
+
+type SeqElem struct {
+	G *Term
+	B *Box
+}
+
 type Box struct {
 	id        int
 	Keys      map[string]*Term // atom codes
@@ -227,6 +239,8 @@ func targetKey(t Target) string {
 		return "I" + x.Typ.String()
 	case BoxT:
 		return fmt.Sprintf("B%d", x.B.id)
+	case BoxSeqT:
+		return fmt.Sprintf("Q%d", x.id)
 	case LineT:
 		return fmt.Sprintf("L%d", x.id)
 	}
